@@ -5,3 +5,4 @@ CONSTANTS
   MaxBlocks = 3
   WriteConvention = "nonzero"
   ReadConvention = "loop"
+  ResumeConvention = "advance"
